@@ -114,6 +114,10 @@ def report(ck, name, pair, o, projection, meta=None):
         rep["binary_output"] = (o.get("cli_output") or b"").decode("utf-8", "replace")
         ck.violation("command line and library disagree: %s" % o["cli_differs"], rep)
         return True
+    if o.get("api_swallowed"):
+        ck.violation("a change of the patch fails on this file (%s) but the library (patch.File.Apply) returns success: neither a rewrite "
+                     "nor a diagnostic" % o["api_swallowed"][:200], rep)
+        return True
     if o.get("api_failed"):
         ck.violation("the library (patch.File.Apply) reports an error on an input every change of which applies: %s" % o["api_failed"][:200], rep)
         return True
